@@ -153,3 +153,106 @@ theorem bytewise_lines_noNl (st : St) (bs : List Byte) (h : (10 : Byte) ∉ st.l
       exact ⟨h, fun e => hb e.symm⟩
 
 end LB
+
+namespace LB
+
+/-- offset at which the line currently being collected starts -/
+def lineStart (st : St) : Nat := st.off - st.leftover.length
+
+/-- the offsets of a log are non-decreasing and lie between `lo` and `hi` -/
+def LogMono : Nat → Log → Nat → Prop
+  | lo, [], hi => lo ≤ hi
+  | lo, p :: rest, hi => lo ≤ p.1 ∧ LogMono p.1 rest hi
+
+theorem LogMono.weaken {lo lo' hi : Nat} {log : Log} (h : LogMono lo log hi) (hl : lo' ≤ lo) :
+    LogMono lo' log hi := by
+  cases log with
+  | nil => exact Nat.le_trans hl h
+  | cons p rest => exact ⟨Nat.le_trans hl h.1, h.2⟩
+
+theorem LogMono.le {lo hi : Nat} {log : Log} (h : LogMono lo log hi) : lo ≤ hi := by
+  induction log generalizing lo with
+  | nil => exact h
+  | cons p rest ih => exact Nat.le_trans h.1 (ih h.2)
+
+theorem LogMono.append {lo mid hi : Nat} {a b : Log} (ha : LogMono lo a mid) (hb : LogMono mid b hi) :
+    LogMono lo (a ++ b) hi := by
+  induction a generalizing lo with
+  | nil => exact hb.weaken ha
+  | cons p rest ih => exact ⟨ha.1, ih ha.2⟩
+
+theorem bytewise_logMono (st : St) (bs : List Byte) (h : Inv st) :
+    LogMono (lineStart st) (bytewise st bs).2 (lineStart (bytewise st bs).1) := by
+  unfold bytewise
+  induction bs generalizing st with
+  | nil => simp [LogMono]
+  | cons b bs ih =>
+    simp only [List.foldl_cons]
+    by_cases hb : b = 10
+    · simp only [pushByte, hb, if_true]
+      rw [foldl_log]
+      have := ih { leftover := [], off := st.off + 1 } (by simp [Inv])
+      simp only [List.nil_append, List.cons_append]
+      refine ⟨Nat.le_refl _, this.weaken ?_⟩
+      simp only [lineStart, List.length_nil]
+      omega
+    · simp only [pushByte, hb, if_false]
+      have h' : st.leftover.length ≤ st.off := h
+      have := ih { leftover := st.leftover ++ [b], off := st.off + 1 } (by simp [Inv]; omega)
+      have e : lineStart { leftover := st.leftover ++ [b], off := st.off + 1 } = lineStart st := by
+        simp only [lineStart, List.length_append, List.length_singleton]; omega
+      rwa [e] at this
+
+theorem splitNl_none_iff (bs : List Byte) : splitNl bs = none ↔ (10 : Byte) ∉ bs := by
+  induction bs with
+  | nil => simp [splitNl]
+  | cons b bs ih =>
+    simp only [splitNl, List.mem_cons, not_or]
+    by_cases hb : b = 10
+    · simp [hb]
+    · simp only [hb, if_false]
+      constructor
+      · intro h
+        refine ⟨fun e => hb e.symm, ?_⟩
+        cases hs : splitNl bs with
+        | none => exact ih.1 hs
+        | some p => obtain ⟨l, r⟩ := p; simp [hs] at h
+      · intro h
+        rw [ih.2 h.2]
+
+/-- the lines of `first \n l₁ \n l₂ … \n lₙ` (no piece containing `\n`): all but the last are logged, the
+last stays in `leftover` -/
+def joinNl : List Byte → List (List Byte) → List Byte
+  | first, [] => first
+  | first, l :: ls => first ++ 10 :: joinNl l ls
+
+theorem bytewise_joinNl (st : St) (first : List Byte) (rest : List (List Byte))
+    (hf : (10 : Byte) ∉ first) (hr : ∀ l ∈ rest, (10 : Byte) ∉ l) :
+    ((bytewise st (joinNl first rest)).2.map (·.2) ++ [(bytewise st (joinNl first rest)).1.leftover])
+      = (st.leftover ++ first) :: rest := by
+  induction rest generalizing st first with
+  | nil =>
+    simp only [joinNl]
+    rw [bytewise_noNl _ _ ((splitNl_none_iff _).2 hf)]
+    simp
+  | cons l ls ih =>
+    simp only [joinNl]
+    rw [bytewise_append]
+    rw [bytewise_noNl _ _ ((splitNl_none_iff _).2 hf)]
+    simp only [List.nil_append]
+    have hstep : bytewise { leftover := st.leftover ++ first, off := st.off + first.length } (10 :: joinNl l ls)
+        = ((bytewise { leftover := [], off := st.off + first.length + 1 } (joinNl l ls)).1,
+           (st.off + first.length - (st.leftover ++ first).length, st.leftover ++ first)
+             :: (bytewise { leftover := [], off := st.off + first.length + 1 } (joinNl l ls)).2) := by
+      unfold bytewise
+      simp only [List.foldl_cons, pushByte, if_true]
+      rw [foldl_log]
+      simp
+    rw [hstep]
+    simp only [List.map_cons, List.cons_append]
+    have := ih { leftover := [], off := st.off + first.length + 1 } l (hr l (by simp))
+      (fun x hx => hr x (by simp [hx]))
+    simp only [List.nil_append] at this
+    rw [this]
+
+end LB
